@@ -202,6 +202,7 @@ func TestVerifC20(t *testing.T) {
 	c20AnyQC(t, v)
 	c20JunkPositions(t, v)
 	c20AggReporters(t, v)
+	c20BlsBits(t, v)
 	v.Close("QC and TC signed by exactly k distinct members verified by a real Authority, n = 1..13, k = 1..n; non-trivial = k at or just below the quorum")
 }
 
@@ -915,6 +916,201 @@ func c20AggReporters(t *testing.T, v *verifOut) {
 						}
 						v.Case(s, fmt.Sprintf("(%s,%s,%s)", gZ(int64(n)), gZ(int64(covered)), gBool(accepted)), meta)
 					}
+				}
+			}
+		}
+	}
+}
+
+// c20BlsBits (stream "bls_bits"): BLS12 QCs and TCs whose bitfield names more replicas than signed.  g genuine
+// members sign (g in {1, q/2, q-1}); the bitfield is these g ids plus extra bits up to q and up to n bits, the
+// extras being non-member ids just above n, non-member ids far away (300..), or members that did not sign; the
+// aggregate point is the sum of exactly the genuine signatures (variant: that sum plus an unrelated point).
+// Participants().Len() reaches the quorum, the genuinely signing members do not.  The legitimate certificates
+// (g = q and g = n, bitfield = signers) are included.  VerifyQuorumCert, VerifyTimeoutCert and VerifyAnyQC
+// (aggregate QCs enabled, proposal without an aggregate), cache 0 / 100.
+// Kernel case: (n, genuinely signing members, accepted) — accepted iff that number reaches the quorum.
+func c20BlsBits(t *testing.T, v *verifOut) {
+	s := v.Stream("bls_bits", "thr_mismatches", 2000)
+	sizes := []int{4, 5, 7, 10, 13}
+	if v.Thorough() {
+		sizes = []int{2, 3, 4, 5, 6, 7, 8, 9, 10, 11, 12, 13, 16, 22}
+	}
+	g2 := bls12.NewG2()
+	for _, n := range sizes {
+		q := hotstuff.QuorumSize(n)
+		keys := make([]hotstuff.PrivateKey, n+1)
+		cfgs := make([]*core.RuntimeConfig, n+1)
+		bases := make([]crypto.Base, n+1)
+		for i := 1; i <= n; i++ {
+			var err error
+			if keys[i], err = crypto.GenerateBLS12PrivateKey(); err != nil {
+				t.Fatal(err)
+			}
+			cfgs[i] = core.NewRuntimeConfig(hotstuff.ID(i), keys[i])
+			if bases[i], err = crypto.New(cfgs[i], crypto.NameBLS12); err != nil {
+				t.Fatal(err)
+			}
+		}
+		gen := hotstuff.GetGenesis()
+		block := hotstuff.NewBlock(gen.Hash(), hotstuff.NewQuorumCert(nil, 0, gen.Hash()), &clientpb.Batch{}, 1, 1)
+		const tcView = 7
+		var verifiers []*Authority
+		for _, cacheSize := range []uint{0, 100} {
+			opts := []core.RuntimeOption{core.WithAggregateQC()}
+			if cacheSize > 0 {
+				opts = append(opts, core.WithCache(cacheSize))
+			}
+			cfg := core.NewRuntimeConfig(hotstuff.ID(n), keys[n], opts...)
+			base, err := crypto.New(cfg, crypto.NameBLS12)
+			if err != nil {
+				t.Fatal(err)
+			}
+			for j := 1; j <= n; j++ {
+				cfg.AddReplica(&hotstuff.ReplicaInfo{ID: hotstuff.ID(j), PubKey: keys[j].Public(), Metadata: cfgs[j].ConnectionMetadata()})
+			}
+			logger := logging.NewWithDest(io.Discard, "c20")
+			bc := blockchain.New(eventloop.New(logger, 10), logger, c20NullSender{})
+			bc.Store(block)
+			verifiers = append(verifiers, NewAuthority(cfg, bc, base))
+		}
+		memo := map[string]*bls12.PointG2{}
+		point := func(i int, msg []byte) *bls12.PointG2 {
+			key := fmt.Sprintf("%d|%x", i, msg)
+			if p, ok := memo[key]; ok {
+				return p
+			}
+			sg, err := bases[i].Sign(msg)
+			if err != nil {
+				t.Fatal(err)
+			}
+			p, err := g2.FromCompressed(sg.ToBytes())
+			if err != nil {
+				t.Fatal(err)
+			}
+			memo[key] = p
+			return p
+		}
+		mk := func(msg []byte, genuine int, bits []int, unrelated bool) hotstuff.QuorumSignature {
+			acc := g2.Zero()
+			for i := 1; i <= genuine; i++ {
+				g2.Add(acc, acc, point(i, msg))
+			}
+			if unrelated {
+				b := make([]byte, 32)
+				for x := range b {
+					b[x] = byte(v.rng.Intn(256))
+				}
+				p, err := g2.HashToCurve(b, []byte("C20-UNRELATED"))
+				if err != nil {
+					t.Fatal(err)
+				}
+				g2.Add(acc, acc, p)
+			}
+			var bf crypto.Bitfield
+			for _, id := range bits {
+				bf.Add(hotstuff.ID(id))
+			}
+			sig, err := crypto.RestoreBLS12AggregateSignature(g2.ToCompressed(acc), bf)
+			if err != nil {
+				t.Fatal(err)
+			}
+			return sig
+		}
+		type shape struct {
+			name      string
+			genuine   int
+			bits      []int
+			unrelated bool
+		}
+		upto := func(k int) []int {
+			var r []int
+			for i := 1; i <= k; i++ {
+				r = append(r, i)
+			}
+			return r
+		}
+		shapes := []shape{{"q-signers", q, upto(q), false}, {"n-signers", n, upto(n), false}}
+		seen := map[int]bool{}
+		for _, g := range []int{1, q / 2, q - 1} {
+			if g < 1 || g >= q || seen[g] {
+				continue
+			}
+			seen[g] = true
+			for _, total := range []int{q, n} {
+				if total <= g {
+					continue
+				}
+				for _, kind := range []string{"non-member-next", "non-member-far", "silent-member"} {
+					bits := upto(g)
+					for x := 0; x < total-g; x++ {
+						switch kind {
+						case "non-member-next":
+							bits = append(bits, n+1+x)
+						case "non-member-far":
+							bits = append(bits, 300+x)
+						default:
+							bits = append(bits, g+1+x)
+						}
+					}
+					name := fmt.Sprintf("%d-signers-bitfield-padded-to-%d-with-%s", g, total, kind)
+					shapes = append(shapes, shape{name, g, bits, false})
+					if total == q {
+						shapes = append(shapes, shape{name + "-plus-unrelated-point", g, bits, true})
+					}
+				}
+			}
+			// the Byzantine replica's own id plus ids above n: a single real signer listing q participants
+			if g == 1 {
+				bits := []int{1}
+				for x := 0; x < q-1; x++ {
+					bits = append(bits, n+1+x)
+				}
+				shapes = append(shapes, shape{"single-signer-plus-ids-above-n", 1, bits, false})
+			}
+		}
+		for _, sh := range shapes {
+			qcSig := mk(block.ToBytes(), sh.genuine, sh.bits, sh.unrelated)
+			tcSig := mk(hotstuff.View(tcView).ToBytes(), sh.genuine, sh.bits, sh.unrelated)
+			qc := hotstuff.NewQuorumCert(qcSig, block.View(), block.Hash())
+			for vi, a := range verifiers {
+				for _, call := range []string{"VerifyQuorumCert", "VerifyTimeoutCert", "VerifyAnyQC"} {
+					accepted := false
+					meta := map[string]any{"scheme": "bls12", "n": n, "quorum": q, "shape": sh.name, "bitfield": fmt.Sprint(sh.bits), "participants_len": qcSig.Participants().Len(),
+						"genuinely_signing_members": sh.genuine, "unrelated_point_added": sh.unrelated, "call": call, "cache_size": []int{0, 100}[vi]}
+					func() {
+						defer func() {
+							if r := recover(); r != nil {
+								meta["panic"] = fmt.Sprint(r)
+							}
+						}()
+						switch call {
+						case "VerifyQuorumCert":
+							accepted = a.VerifyQuorumCert(qc) == nil
+						case "VerifyTimeoutCert":
+							accepted = a.VerifyTimeoutCert(hotstuff.NewTimeoutCert(tcSig, tcView)) == nil
+						default:
+							blk := hotstuff.NewBlock(block.Hash(), qc, &clientpb.Batch{}, 2, 1)
+							accepted = a.VerifyAnyQC(&hotstuff.ProposeMsg{ID: 1, Block: blk}) == nil
+						}
+					}()
+					meta["accepted"] = accepted
+					v.Seen(fmt.Sprintf("blsbits/%d/%s/%s/%d", n, sh.name, call, vi), len(sh.bits) >= q, meta)
+					v.Count("bls_bits:" + call)
+					signers := sh.genuine
+					if sh.unrelated {
+						signers = 0 // the point is not a sum of members' signatures at all
+					}
+					switch {
+					case accepted && signers < q:
+						v.Oracle(false, "threshold:bls:bitfield-bits-counted-instead-of-signers",
+							fmt.Sprintf("bls12 n=%d: %s accepted a certificate whose bitfield names %d participants %v but only %d members signed (%s), quorum is %d", n, call, len(sh.bits), sh.bits, signers, sh.name, q), meta)
+					case !accepted && signers >= q:
+						v.Oracle(false, "threshold:bls:rejected-at-quorum", fmt.Sprintf("bls12 n=%d: %s rejected a certificate signed by %d members (%s), quorum is %d", n, call, signers, sh.name, q), meta)
+					default:
+						v.Oracle(true, "", "", nil)
+					}
+					v.Case(s, fmt.Sprintf("(%s,%s,%s)", gZ(int64(n)), gZ(int64(signers)), gBool(accepted)), meta)
 				}
 			}
 		}
